@@ -73,6 +73,9 @@ def json_scalar(r):
         return r.choice([True, False])
     if c < 0.8:
         return r.choice([2**53 + 1, 2**63, -(2**63) - 1, 10**30])
+    if c < 0.84:
+        # window titles and URLs are long
+        return r.choice(["x" * 81, "https://example.org/" + "path/" * 60 + "?q=é", "t" * 5000])
     return "".join(r.choice("abcXYZ 0189_-/.:é\"'\\{}[],=;\n") for _ in range(r.randrange(0, 12)))
 
 
